@@ -4,5 +4,5 @@ CONSTANTS
   MaxN = 4
   Durs = {"1/2", "1", "3"}
   Orders = {2, 3, 4}
-INVARIANTS Exists Defining Optimal Book EnergyLaws Coordwise AdjointOK EnergyGradOK Metamorphic
+INVARIANTS Exists Defining Optimal Book EnergyLaws Coordwise AdjointOK EnergyGradOK Metamorphic Variational Algo
 CHECK_DEADLOCK FALSE
